@@ -66,7 +66,8 @@ class Cursor:
         self.items = items
         self.k = 0
         self.dead = False       # after the error or the end of input
-        self.unknown = False    # after a seek to something that is not an item start
+        self.unknown = False    # the cursor is no longer tracked (after an I/O / buffer-limit error in a set read, ...)
+        self.wild = False       # after a seek to something that is not an item start: nothing is claimed any more
         self.level = level
         self.check_pos = check_pos
         self.saved = []
@@ -92,10 +93,26 @@ class Cursor:
 
     def step(self, i, pl):
         op, kind, out = pl['op'], pl['kind'], pl['out']
+        if self.wild:
+            return True          # after a seek to a place that is no item start nothing is claimed (DESIGN.md section 7)
         if kind in ('panic', 'hang', 'fuel') or op == '?':
             self.fail(i, 'abnormal outcome: %s %s' % (op, out))
             return False
         if self.unknown:
+            # the cursor is not tracked, but C05 still holds for whatever is returned: a position reported
+            # after a record has been returned is that record's true location (unless the caller has
+            # seeked to a place that is no record start)
+            if (not self.wild and self.check_pos and op[0] in 'NO' and kind in ('rec', 'own')
+                    and pl['pos'] != '-'):
+                idx = self.starts.get(pl['pos'])
+                if idx is None or self.items[idx]['kind'] != 'rec':
+                    self.fail(i, 'position %s reported after a record is not the position of a record of the input' % pl['pos'])
+                elif kind == 'rec':
+                    self.expect_rec(i, out, idx)
+            if op[0] in 'KJ' and kind == 'ok':
+                self.seek_ok(op)
+            if op[0] == 'P' and pl['pos'] != '-':
+                self.saved.append(pl['pos'])
             return True
         if kind == 'err' and out.split(' ')[1:2] and out.split(' ')[1] in ('buflimit', 'io'):
             # refused growth / injected source failure: legitimate outcomes that the cursor machine does
@@ -170,18 +187,7 @@ class Cursor:
                 self.fail(i, 'unexpected outcome %s' % out[:40])
         elif c in 'KJ':
             if kind == 'ok':
-                if c == 'K':
-                    a, b = op[1:].split('.')
-                    target = '%s:%s' % (a, b)
-                else:
-                    if not self.saved:
-                        return True
-                    target = self.saved[int(op[1:]) % len(self.saved)]
-                if target in self.starts:
-                    self.k = self.starts[target]
-                    self.dead = False
-                else:
-                    self.unknown = True
+                self.seek_ok(op)
             elif kind == 'nopos':
                 pass
             elif kind == 'err':
@@ -190,6 +196,24 @@ class Cursor:
             if pl['pos'] != '-':
                 self.saved.append(pl['pos'])
         return True
+
+    def seek_ok(self, op):
+        """a successful seek: the cursor is at the target when that is an item start (also when the
+        cursor had been lost before); otherwise nothing is claimed from here on"""
+        if op[0] == 'K':
+            a, b = op[1:].split('.')
+            target = '%s:%s' % (a, b)
+        else:
+            if not self.saved:
+                return
+            target = self.saved[int(op[1:]) % len(self.saved)]
+        if target in self.starts:
+            self.k = self.starts[target]
+            self.dead = False
+            self.unknown = False
+        else:
+            self.unknown = True
+            self.wild = True
 
     def on_err(self, i, pl, allow_skip):
         if self.dead:
